@@ -580,7 +580,7 @@ def fam_wide_faults(tier, seed, tag, nh=None):
     return scens
 
 
-def fam_park3(tier, tag, seed=1):
+def fam_park3(tier, tag, seed=1, variants=("plain", "backing", "special", "pressure")):
     """three parties, deterministic: the first call (a read, or a write in place) is parked after n of its
     requests; a discard of its cluster runs to completion; then a write to another cluster (which may be handed
     the released cluster); then the parked call finishes.  On the tiny device and - with the caches emptied first,
@@ -588,7 +588,7 @@ def fam_park3(tier, tag, seed=1):
     second and third party: the slice the parked writer holds becomes the eviction victim)."""
     out = []
     imgs = _exh_images()
-    for v in ("plain", "backing", "special", "pressure"):
+    for v in variants:
         lay = _exh_layout(v)
         c0, c1 = lay["g"][0] * 2, lay["g"][1] * 2
         rdl = lay["rd"]
@@ -993,7 +993,7 @@ def check_C02(chk):
     scens += fam_outage(chk.tier, chk.seed, "c02o", 6 if chk.tier == "quick" else 40)
     scens += fam_park(chk.tier, "c02k", variants=("plain", "special"), seed=chk.seed)
     scens += fam_wide_faults(chk.tier, chk.seed, "c02")
-    scens += fam_exhaustive(chk.tier, "c02x", variants=("pressure",), depth=3, sample=900 if chk.tier == "quick" else 1818, seed=chk.seed)
+    scens += fam_exhaustive(chk.tier, "c02x", variants=("pressure",), depth=3, sample=300 if chk.tier == "quick" else 1818, seed=chk.seed)
     scens += fam_regress()
     res, st = Q.run_batch(scens, chk.wd, known=chk.known_tags(), par=12)
     chk.consume(res, st, props=("C02",))
@@ -1063,8 +1063,8 @@ def check_C04(chk):
     scens += fam_exhaustive_par(chk.tier, "c04p", seed=chk.seed)
     scens += fam_park(chk.tier, "c04k", variants=("plain", "backing"), seed=chk.seed)
     scens += fam_exhaustive(chk.tier, "c04x", variants=("pressure",), depth=2 if chk.tier == "quick" else 3, seed=chk.seed)
-    scens += fam_exhaustive_par(chk.tier, "c04y", variants=("pressure",), parn=2, seeds=(1,), sample=500 if chk.tier == "quick" else 1500, seed=chk.seed)
-    scens += fam_park3(chk.tier, "c04t", seed=chk.seed)
+    scens += fam_exhaustive_par(chk.tier, "c04y", variants=("pressure",), parn=2, seeds=(1,), sample=150 if chk.tier == "quick" else 1500, seed=chk.seed)
+    scens += fam_park3(chk.tier, "c04t", seed=chk.seed, variants=("plain", "backing", "special") if chk.tier == "quick" else ("plain", "backing", "special", "pressure"))
     scens += [s_ for s_ in fam_growth(chk.tier, chk.seed, "c04g", 8 if chk.tier == "quick" else 48) if "-2-" in s_["name"] or "-3-" in s_["name"] or "-1-" in s_["name"]]
     scens += fam_regress()
     res, st = Q.run_batch(scens, chk.wd, mode="crash", known=chk.known_tags(), par=14)
@@ -1090,8 +1090,8 @@ def check_C05(chk):
     scens += fam_exhaustive_par(chk.tier, "c05p", seed=chk.seed)
     scens += fam_park(chk.tier, "c05k", variants=("plain", "backing"), seed=chk.seed)
     scens += fam_exhaustive(chk.tier, "c05x", variants=("pressure",), depth=2 if chk.tier == "quick" else 3, seed=chk.seed)
-    scens += fam_exhaustive_par(chk.tier, "c05y", variants=("pressure",), parn=2, seeds=(1,), sample=500 if chk.tier == "quick" else 1500, seed=chk.seed)
-    scens += fam_park3(chk.tier, "c05t", seed=chk.seed)
+    scens += fam_exhaustive_par(chk.tier, "c05y", variants=("pressure",), parn=2, seeds=(1,), sample=150 if chk.tier == "quick" else 1500, seed=chk.seed)
+    scens += fam_park3(chk.tier, "c05t", seed=chk.seed, variants=("plain", "backing", "special") if chk.tier == "quick" else ("plain", "backing", "special", "pressure"))
     scens += fam_outage(chk.tier, chk.seed, "c05o", 4 if chk.tier == "quick" else 24)
     scens += fam_regress()
     res, st = Q.run_batch(scens, chk.wd, mode="crash", known=chk.known_tags(), par=14)
